@@ -323,10 +323,11 @@ def check_precision(prog, rep, m):
                     '(accumulated rounding of min + i*width, or a sample that misses the maximum, leaves the maximum cell '
                     'above the last break = NaN): ' + why)
     # the Jenks fit sees every sampled cell: no de-duplication on the way (ties carry weight in the within-class sums)
-    f = m.funcs.get('_run_natural_break')
-    if f is not None:
+    njenks = 0
+    for f in [g_ for g_ in m.funcs.values() if not g_.is_lambda and g_.name != '_run_jenks']:
         jc = [c for c in calls(f.node) if c in f.own_nodes() and short(c) == '_run_jenks' and c.args]
         for c in jc:
+            njenks += 1
             n += 1
             seen = set()
             work = [c.args[0]]
@@ -342,6 +343,8 @@ def check_precision(prog, rep, m):
             rep.add('K3', f, 'natural_breaks', '%s: fitted on every sampled cell' % norm(c), c.lineno, dedup is None,
                     'the Jenks model minimises the within-class sum of squared deviations over all cells: fitting it on '
                     'de-duplicated values (%s) ignores how often a value occurs and moves the breaks' % dedup)
+    if not njenks:
+        rep.add('K3', m, 'natural_breaks', 'Jenks fit', 1, None, 'no call of _run_jenks found in the module')
     return n
 
 
